@@ -76,6 +76,8 @@ class GFile:
         self.externs = []           # names this file exports
         self.probe_order = []       # symbols in the .dword probe table, in order
         self.probe_header = None    # unique 8-byte marker in front of the probe table
+        self.front_order = []       # the same symbols probed at the START of the file (forward references)
+        self.front_header = None
         self.has_end = False
 
     def text(self):
@@ -826,6 +828,20 @@ class Gen:
         # initial parity
         fg.even = even_in
         body = []
+        want_probe = rng.random() < self.p["probe"]
+        if want_probe and rng.random() < 0.5:
+            # forward-reference probe table: the same symbols as the table at the end of the file,
+            # referenced before any of them is defined
+            names = [c.name for c in plan["consts"]] + list(plan["labels"])
+            if names:
+                fg.need_even(body)
+                hdr = "FPB%05d" % (self.marker_ctr % 100000)
+                self.marker_ctr += 1
+                gf.front_header = hdr.encode()
+                body.append(Stmt('.ascii "%s"' % hdr, "probehdr"))
+                for nm in names:
+                    body.append(Stmt(".dword " + nm, "fprobe", {"name": nm}))
+                    gf.front_order.append(nm)
         n = rng.randint(*self.p["n_stmts"])
         if depth > 0:
             n = max(2, n // 3)
@@ -870,7 +886,7 @@ class Gen:
                 plan["consts"].append(c)
         # probe table: .dword S for every ordinary symbol (before placing definitions)
         probes = []
-        if rng.random() < self.p["probe"]:
+        if want_probe:
             names = [c.name for c in plan["consts"]] + list(plan["labels"])
             if names:
                 fg.need_even(body)
